@@ -64,26 +64,28 @@ var (
 
 // ---------------------------------------------------------------- real code, one evaluation
 
-func stageSys(last, addr []byte) string {
+// The stage functions return the LIVE slice the real code handed out (not a copy) and a tag
+// ("" = a value): the caller keeps it and looks at it again after later evaluations.
+func stageSys(last, addr []byte) ([]byte, string) {
 	sc := make(chan []byte, 1)
 	sc <- addr
 	close(sc)
 	v, ok := <-dosnode.VerifGenSysRandom(context.Background(), sc, last, quiet)
 	if !ok {
-		return "closed"
+		return nil, "closed"
 	}
-	return h.Hex(v)
+	return v, ""
 }
 
-func stageUser(q, r, s, addr []byte) string {
+func stageUser(q, r, s, addr []byte) ([]byte, string) {
 	sc := make(chan []byte, 1)
 	sc <- addr
 	close(sc)
 	v, ok := <-dosnode.VerifGenUserRandom(context.Background(), sc, q, r, s, quiet)
 	if !ok {
-		return "closed"
+		return nil, "closed"
 	}
-	return h.Hex(v)
+	return v, ""
 }
 
 func mkIDs(n int) [][]byte {
@@ -96,14 +98,18 @@ func mkIDs(n int) [][]byte {
 	return ids
 }
 
-func stageSubmitter(r *big.Int, ids [][]byte) string {
+func stageSubmitter(r *big.Int, ids [][]byte) ([]byte, string) {
 	outs, errc := dosnode.VerifChoseSubmitter(context.Background(), nil, nil, r, ids, 2, quiet)
 	a, b := <-outs[0], <-outs[1]
 	for range errc {
 	}
 	if !bytes.Equal(a, b) {
-		return "outs-differ"
+		return nil, "outs-differ"
 	}
+	return a, ""
+}
+
+func idxOf(ids [][]byte, a []byte) string {
 	for i, id := range ids {
 		if bytes.Equal(id, a) {
 			return "idx " + strconv.Itoa(i)
@@ -138,47 +144,52 @@ func docURL(doc []byte) string {
 	return srv.URL + k
 }
 
-func parseOnce(doc []byte, sel string) (out string) {
+func parseLive(doc []byte, sel string) (v []byte, tag string) {
 	defer func() {
 		if e := recover(); e != nil {
-			out = "panic"
+			v, tag = nil, "panic"
 		}
 	}()
 	v, err := dosnode.VerifDataParse(doc, sel)
 	if err != nil {
-		return "err"
+		return nil, "err"
+	}
+	return v, ""
+}
+
+func parseOnce(doc []byte, sel string) string {
+	v, tag := parseLive(doc, sel)
+	if tag != "" {
+		return tag
 	}
 	return h.Hex(v)
 }
 
 // stageQuery: the real genQueryResult (HTTP fetch + dataParse + append submitter)
-func stageQuery(url, sel string, addr []byte) string {
+func stageQuery(url, sel string, addr []byte) ([]byte, string) {
 	sc := make(chan []byte, 1)
 	sc <- addr
 	close(sc)
 	out, errc := dosnode.VerifGenQueryResult(context.Background(), sc, url, sel, quiet)
-	var res string
-	got := false
+	var res []byte
+	tag := "closed"
 	for out != nil || errc != nil {
 		select {
 		case v, ok := <-out:
 			if !ok {
 				out = nil
 			} else {
-				res, got = h.Hex(v), true
+				res, tag = v, ""
 			}
 		case e, ok := <-errc:
 			if !ok {
 				errc = nil
 			} else if e != nil {
-				res, got = "err parse", true
+				res, tag = nil, "err parse"
 			}
 		}
 	}
-	if !got {
-		return "closed"
-	}
-	return res
+	return res, tag
 }
 
 type group1 struct {
@@ -229,28 +240,105 @@ func stageStrip(content []byte) string {
 
 // ---------------------------------------------------------------- determinism wrapper
 
-// det evaluates f 8 times in sequence and then from 8 goroutines; returns the first
-// result and a description of any difference.
-func det(f func() string) (string, string) {
-	first := f()
-	for i := 1; i < 8; i++ {
-		if v := f(); v != first {
-			return first, fmt.Sprintf("nondeterministic: sequential evaluation %d gave %.80s, the first gave %.80s", i, v, first)
+type evaluation struct {
+	live []byte // the slice the real code returned, still referenced
+	copy []byte // its value when it was returned
+	tag  string
+}
+
+func keep(live []byte, tag string) evaluation {
+	return evaluation{live: live, copy: append([]byte(nil), live...), tag: tag}
+}
+
+// det evaluates f 8 times in sequence and then from 8 goroutines, with evaluations of OTHER
+// inputs (disturb) in between and in flight at the same time. Every returned slice is kept alive
+// and compared with the copy taken when it was returned only after all evaluations have finished:
+// a result that aliases storage reused by a later evaluation (a pooled buffer, a shared backing
+// array) is seen to change. Returns the first result and a description of any difference.
+func det(f func() ([]byte, string), disturb func()) (evaluation, string) {
+	var rs []evaluation
+	for i := 0; i < 8; i++ {
+		rs = append(rs, keep(f()))
+		if disturb != nil {
+			disturb()
 		}
 	}
 	var wg sync.WaitGroup
-	res := make([]string, 8)
-	for i := range res {
+	conc := make([]evaluation, 8)
+	for i := range conc {
 		wg.Add(1)
-		go func(i int) { defer wg.Done(); res[i] = f() }(i)
+		go func(i int) { defer wg.Done(); conc[i] = keep(f()) }(i)
+		if disturb != nil && i%2 == 0 {
+			wg.Add(1)
+			go func() { defer wg.Done(); disturb() }()
+		}
 	}
 	wg.Wait()
-	for i, v := range res {
-		if v != first {
-			return first, fmt.Sprintf("nondeterministic: concurrent evaluation %d gave %.80s, sequential gave %.80s", i, v, first)
+	rs = append(rs, conc...)
+	if disturb != nil {
+		disturb()
+	}
+	first := rs[0]
+	for i, r := range rs {
+		how := "sequential"
+		if i >= 8 {
+			how = "concurrent"
+		}
+		if r.tag != first.tag || !bytes.Equal(r.copy, first.copy) {
+			return first, fmt.Sprintf("nondeterministic: %s evaluation %d gave %s %.80s, the first gave %s %.80s", how, i, r.tag, h.Hex(r.copy), first.tag, h.Hex(first.copy))
+		}
+		if !bytes.Equal(r.live, r.copy) {
+			return first, fmt.Sprintf("result-aliased: the value returned by %s evaluation %d changed while later evaluations ran (returned %.80s, now %.80s)", how, i, h.Hex(r.copy), h.Hex(r.live))
 		}
 	}
 	return first, ""
+}
+
+func (e evaluation) String() string {
+	if e.tag != "" {
+		return e.tag
+	}
+	return h.Hex(e.copy)
+}
+
+// other inputs evaluated in between (different lengths, both selector languages)
+var (
+	otherDocs = [][2]string{
+		{`<root><item id="9">a much longer text node than usual, to move the buffer</item><item>z</item><q>1</q></root>`, "//item"},
+		{`<r><q>7</q></r>`, "/r/q"},
+		{`{"a":[1,2,3,{"b":"cccccccccccccccccccccccccccccccc"}],"k":"v"}`, "$..b"},
+		{`<r><a>1</a><a>22</a><a>333</a><a>4444</a></r>`, "//a/text()"},
+	}
+	otherURLs  []string
+	otherOnce  sync.Once
+	otherAddr  = bytes.Repeat([]byte{0x5a}, 20)
+	disturbSeq uint32
+	disturbMu  sync.Mutex
+)
+
+func disturbQuery() {
+	otherOnce.Do(func() {
+		for _, d := range otherDocs {
+			otherURLs = append(otherURLs, docURL([]byte(d[0])))
+		}
+	})
+	disturbMu.Lock()
+	disturbSeq++
+	k := int(disturbSeq) % len(otherDocs)
+	disturbMu.Unlock()
+	parseLive([]byte(otherDocs[k][0]), otherDocs[k][1])
+	stageQuery(otherURLs[k], otherDocs[k][1], otherAddr)
+}
+
+func disturbStages() {
+	disturbMu.Lock()
+	disturbSeq++
+	k := int(disturbSeq)
+	disturbMu.Unlock()
+	b := bytes.Repeat([]byte{byte(k)}, 1+k%45)
+	dosnode.VerifPadOrTrim(b, 32)
+	stageSys(b, otherAddr)
+	stageUser(b, b[:len(b)/2], b, otherAddr)
 }
 
 func exact(b []byte) []byte { // capacity == length, as big.Int.Bytes() returns it
@@ -298,9 +386,9 @@ func exec(line string) (res h.Result) {
 	case "pad":
 		bb, size := exact(h.UnHex(w[1])), h.Atoi(w[2])
 		keep := exact(bb)
-		var o string
-		res.Impl, o = det(func() string { return h.Hex(dosnode.VerifPadOrTrim(bb, size)) })
-		out := h.UnHex(res.Impl)
+		e, o := det(func() ([]byte, string) { return dosnode.VerifPadOrTrim(bb, size), "" }, disturbStages)
+		res.Impl = e.String()
+		out := e.copy
 		var o2 string
 		if len(out) != size {
 			o2 = fmt.Sprintf("pad-length: padOrTrim returned %d bytes for size %d", len(out), size)
@@ -321,9 +409,9 @@ func exec(line string) (res h.Result) {
 		}
 		addr := exact(h.UnHex(w[2]))
 		keepL, keepA := exact(last), exact(addr)
-		var o string
-		res.Impl, o = det(func() string { return stageSys(last, addr) })
-		out := h.UnHex(res.Impl)
+		e, o := det(func() ([]byte, string) { return stageSys(last, addr) }, disturbStages)
+		res.Impl = e.String()
+		out := e.copy
 		var o2 string
 		switch {
 		case len(out) != 32+len(keepA):
@@ -345,8 +433,8 @@ func exec(line string) (res h.Result) {
 		}
 		addr := exact(h.UnHex(w[4]))
 		kq, kr, ks, ka := exact(q), exact(r), exact(s), exact(addr)
-		var o string
-		res.Impl, o = det(func() string { return stageUser(q, r, s, addr) })
+		e, o := det(func() ([]byte, string) { return stageUser(q, r, s, addr) }, disturbStages)
+		res.Impl = e.String()
 		var want []byte
 		if w[0] == "user" {
 			want = append(append(append(append(want, minBytes(h.BigDec(w[1]))...), minBytes(h.BigDec(w[2]))...), minBytes(h.BigDec(w[3]))...), ka...)
@@ -354,7 +442,7 @@ func exec(line string) (res h.Result) {
 			want = append(append(append(append(want, kq...), kr...), ks...), ka...)
 		}
 		var o2 string
-		if !bytes.Equal(h.UnHex(res.Impl), want) {
+		if e.tag != "" || !bytes.Equal(e.copy, want) {
 			o2 = "user-content: signed message is not requestId || lastRand || seed || submitter"
 		}
 		res.Oracle = first(o, unchanged("requestId", q, kq), unchanged("lastSysRand", r, kr), unchanged("userSeed", s, ks), unchanged("submitter", addr, ka), o2)
@@ -362,8 +450,11 @@ func exec(line string) (res h.Result) {
 		r, n := h.BigDec(w[1]), h.Atoi(w[2])
 		ids := mkIDs(n)
 		keep := new(big.Int).Set(r)
-		var o string
-		res.Impl, o = det(func() string { return stageSubmitter(r, ids) })
+		e, o := det(func() ([]byte, string) { return stageSubmitter(r, ids) }, nil)
+		res.Impl = e.tag
+		if e.tag == "" {
+			res.Impl = idxOf(ids, e.copy)
+		}
 		want := new(big.Int).Mod(new(big.Int).And(keep, new(big.Int).Sub(two64, big.NewInt(1))), big.NewInt(int64(n)))
 		var o2 string
 		if res.Impl != "idx "+want.String() {
@@ -389,7 +480,8 @@ func exec(line string) (res h.Result) {
 	case "query":
 		kind, parsed, addr, doc, sel := w[1], w[2], exact(h.UnHex(w[3])), exact(h.UnHex(w[4])), string(h.UnHex(w[5]))
 		keepD, keepA := exact(doc), exact(addr)
-		got, o := det(func() string { return parseOnce(doc, sel) })
+		ge, o := det(func() ([]byte, string) { return parseLive(doc, sel) }, disturbQuery)
+		got := ge.String()
 		var o2 string
 		if got != parsed {
 			o2 = fmt.Sprintf("nondeterministic: dataParse gives %.60s now, gave %.60s when the case was generated", got, parsed)
@@ -401,12 +493,12 @@ func exec(line string) (res h.Result) {
 			res.Impl = "panic parse"
 		default:
 			url := docURL(doc)
-			var o3 string
-			res.Impl, o3 = det(func() string { return stageQuery(url, sel, addr) })
+			se, o3 := det(func() ([]byte, string) { return stageQuery(url, sel, addr) }, disturbQuery)
+			res.Impl = se.String()
 			o = first(o, o3)
 			if got != "err" {
-				want := append(exact(h.UnHex(got)), keepA...)
-				if !bytes.Equal(h.UnHex(res.Impl), want) && o2 == "" {
+				want := append(exact(ge.copy), keepA...)
+				if (se.tag != "" || !bytes.Equal(se.copy, want)) && o2 == "" {
 					o2 = "query-content: signed message is not the selected result followed by the submitter address"
 				}
 			} else if res.Impl != "err parse" && o2 == "" {
